@@ -221,6 +221,112 @@ def scaled_gate_set_cases(rng, pds, reps):
     return out
 
 
+class InjectZ:
+    """every normal draw returns z_k times the standard deviation it was asked for (k-th call); records the calls"""
+    def __init__(self, zs):
+        self.zs, self.calls = list(zs), []
+
+    def normal(self, m=0.0, s=1.0, size=None):
+        k = len(self.calls)
+        self.calls.append((float(m), float(s)))
+        return float(m) + float(s) * (self.zs[k] if k < len(self.zs) else 0.0)
+
+    def mvn(self, mean, cov, size=None):
+        raise AssertionError("multivariate_normal is not expected in the exact samplers")
+
+
+def with_draws(fn, zs):
+    inj = InjectZ(zs)
+    om, on = np.random.multivariate_normal, np.random.normal
+    np.random.multivariate_normal, np.random.normal = inj.mvn, inj.normal
+    try:
+        with np.errstate(all="ignore"):
+            G = np.array(fn(), dtype=complex)
+    finally:
+        np.random.multivariate_normal, np.random.normal = om, on
+    return G, inj.calls
+
+
+_GH = np.polynomial.hermite_e.hermegauss(48)          # nodes / weights for the standard normal (weights sum to sqrt(2 pi))
+
+
+def exact_sampler_cases(rng, reps):
+    """the three closed-form samplers (read-out bit flip, idle depolarisation, idle relaxation), through the factories AND the
+    gate-set methods.  With the k-th normal draw forced to z_k standard deviations the returned matrix must be
+      bit flip        exp(i sqrt(rout) z X)                                   [L = sqrt(rout/tm) X over the time tm]
+      depolarisation  exp(i sqrt(p Dt / 4 tg) (z1 X + z2 Y + z3 Z))           [L = sqrt(p/4) {X,Y,Z} per gate time, three draws]
+    and for the relaxation the Gaussian shot average of G rho G^dag (Gauss-Hermite quadrature over the draws, with the real
+    function evaluated at every node) must be the T1/T2 channel to 1e-10."""
+    import quantum_gates._gates.factories as F
+    from quantum_gates._gates.gates import standard_gates, Gates, ScaledNoiseGates
+    bad = []
+    bf, dp, rx = F.BitflipFactory(), F.DepolarizingFactory(), F.RelaxationFactory()
+    gs = [("factory", bf.construct, dp.construct, rx.construct, 1.0),
+          ("standard_gates", standard_gates.bitflip, standard_gates.depolarizing, standard_gates.relaxation, 1.0)]
+    sc = rng.choice([0.37, 2.5])
+    sg = ScaledNoiseGates(noise_scaling=sc)
+    gs.append((f"ScaledNoiseGates({sc})", sg.bitflip, sg.depolarizing, sg.relaxation, sc))
+    n = 0
+    for _ in range(reps):
+        for name, fb, fd, fr, s in gs:
+            # --- read-out bit flip
+            tm = rng.choice([rng.uniform(0.3e-6, 6e-6), 35e-9, rng.uniform(1e-9, 30e-9)])
+            rout = rng.choice([rng.uniform(1e-4, 0.2), 0.5, 1e-9, rng.uniform(0.2, 0.9)]) / max(s, 1.0)
+            for z in (1.0, -0.7, 2.3):
+                G, calls = with_draws(lambda: fb(tm, rout), [z])
+                n += 1
+                want = scipy.linalg.expm(1j * math.sqrt(rout * s) * z * X)
+                if len(calls) != 1 or not np.abs(G - want).max() <= 1e-12:
+                    bad.append(("bitflip", [name, tm, rout, z],
+                                f"{name} bitflip(tm={tm!r}, rout={rout!r}) with the draw at {z} standard deviations: the sample differs from "
+                                f"exp(i sqrt(rout) z X) by {np.abs(G - want).max():.3e} ({len(calls)} normal draw(s)) - the flip angle does not "
+                                f"have the variance rout of the Lindblad operator sqrt(rout/tm) X acting for the time tm"))
+                    break
+            # --- idle depolarisation
+            Dt = rng.choice([rng.uniform(0.5, 60) * TG, TG, rng.uniform(1e-3, 0.5) * TG])
+            p = rng.uniform(1e-5, 5e-2)
+            for zs in ([1.0, 0.0, 0.0], [0.0, 1.0, 0.0], [0.0, 0.0, 1.0], [0.4, -1.3, 0.8]):
+                G, calls = with_draws(lambda: fd(Dt, p), zs)
+                n += 1
+                k = math.sqrt(p * s * Dt / (4 * TG))
+                want = scipy.linalg.expm(1j * k * (zs[0] * X + zs[1] * Y + zs[2] * Z))
+                if len(calls) != 3 or not np.abs(G - want).max() <= 1e-12:
+                    bad.append(("depolarizing", [name, Dt, p, zs],
+                                f"{name} depolarizing(Dt={Dt!r}, p={p!r}) with the three draws at {zs} standard deviations: the sample differs "
+                                f"from exp(i sqrt(p Dt / 4 tg)(z1 X + z2 Y + z3 Z)) by {np.abs(G - want).max():.3e} ({len(calls)} normal draw(s))"))
+                    break
+            # --- idle relaxation: exact shot average by quadrature
+            T1 = rng.uniform(5e-6, 300e-6) if rng.random() < 0.8 else 0.0
+            T2 = (rng.uniform(0.2, 2.0) * T1) if T1 else rng.choice([0.0, rng.uniform(5e-6, 300e-6)])
+            if rng.random() < 0.15:
+                T2 = 0.0
+            Dr = rng.uniform(1, 80) * TG
+            rho = np.array([[0.3, 0.2 - 0.1j], [0.2 + 0.1j, 0.7]])
+            acc = np.zeros((2, 2), complex)
+            nodes, wts = _GH
+            ncalls = None
+            # the matrix is analytic in both draws: the amplitude draw enters linearly (second moment 1 is all that matters), so a
+            # 3-point rule (-sqrt 3, 0, sqrt 3) is exact for it; 48 Gauss-Hermite nodes for the phase draw
+            for zw, ww in zip(nodes, wts):
+                for zi, wi in ((-math.sqrt(3), 1 / 6), (0.0, 2 / 3), (math.sqrt(3), 1 / 6)):
+                    G, calls = with_draws(lambda: fr(Dr, T1, T2), [zw, zi])
+                    ncalls = len(calls)
+                    acc += (ww / math.sqrt(2 * math.pi)) * wi * (G @ rho @ G.conj().T)
+            n += 1
+            g1 = math.exp(-Dr * s / T1) if T1 else 1.0
+            g2 = (math.exp(-Dr * s / T2) if T2 else (math.sqrt(g1))) if (T1 or T2) else 1.0
+            if T2 and not T1:
+                g2 = math.exp(-Dr * s / T2)
+            want = np.array([[rho[0, 0] + (1 - g1) * rho[1, 1], g2 * rho[0, 1]], [g2 * rho[1, 0], g1 * rho[1, 1]]])
+            dev = float(np.abs(acc - want).max())
+            if ncalls != 2 or not dev <= 1e-10:
+                bad.append(("relaxation", [name, Dr, T1, T2],
+                            f"{name} relaxation(Dt={Dr!r}, T1={T1!r}, T2={T2!r}): the Gaussian shot average of G rho G^dag (quadrature over the "
+                            f"{ncalls} draws, real function at every node) deviates from the T1/T2 channel (populations decay with exp(-Dt/T1), "
+                            f"coherences with exp(-Dt/T2)) by {dev:.3e}"))
+    return n, bad
+
+
 def channel_mc(rng, n):
     """shot average of G rho G^dag for the idle relaxation gate vs the T1/T2 channel (Monte Carlo: a test, not a proof)"""
     import quantum_gates._gates.factories as F
@@ -331,6 +437,11 @@ def main(ctx):
         fails.append(("boundary", ["constant"], [g, T1, T1b],
                       [f"T1-limited boundary: standard_gates.{g} with T1={T1!r}, T2=2*T1 returns non-finite entries "
                        f"(rounding makes the radicand of the dephasing strength negative)"]))
+    n_ex, ex_bad = exact_sampler_cases(rng, 12 if ctx.thorough else 3)
+    ctx.count(n_ex)
+    hist["exact-samplers"] = n_ex
+    for gate, args, text in ex_bad:
+        fails.append(("exact:" + gate, ["none"], args, [text]))
     dev, tol, margs = channel_mc(rng, 60000 if ctx.thorough else 8000)
     ctx.count()
     cov["relaxation_channel_monte_carlo"] = {"label": "test (Monte Carlo), not a proof", "deviation": dev, "tolerance": tol, "args": margs}
@@ -385,6 +496,15 @@ def replay(ctx, path):
         return 0 if np.isfinite(G).all() else 1
     if rp["gate"] == "channel":
         print("Monte-Carlo channel test: re-run the check"); return 1
+    if rp["gate"].startswith("exact:"):
+        print(rp["gate"], rp["args"]); print(rp["failure"][0][:600])
+        import random
+        for sd in range(40):
+            n, bad = exact_sampler_cases(random.Random(sd), 1)
+            hit = [b for b in bad if "exact:" + b[0] == rp["gate"]]
+            if hit:
+                print("oracle (re-run of the exact-sampler family, seed", sd, "):", hit[0][2][:400]); return 1
+        print("oracle: holds on 40 re-runs of the exact-sampler family"); return 0
     if rp["gate"].startswith("scaled:"):
         print("scaled gate set case: re-run ./check C04 with the seed of the evidence file;", rp["failure"][:300]); return 1
     if rp["gate"] == "cr-sweep":                       # the earlier request on the same factory object first
